@@ -6,6 +6,7 @@ CONSTANTS
   AliasInput = FALSE
   LeakyObserver = TRUE
   AliasResult = FALSE
+  AliasArg = FALSE
 INVARIANT Independent
 INVARIANT Deterministic
 INVARIANT FreshDefaults
